@@ -181,6 +181,10 @@ def _dir_patterns(g):
                 a = np.where(par == 0, 1.0, -1.0)
                 arrs.append(a if mode == 2 else -a)
         pats.append(arrs)
+    # every combination of one direction per axis (the uniform ones are modes 0 and 1)
+    for sg in U.axis_sign_patterns(g.d, with_zero=False):
+        if len(set(sg)) > 1:
+            pats.append([s_ * np.ones(s) for s_, s in zip(sg, g.face_shapes)])
     return pats
 
 
@@ -292,7 +296,7 @@ def _big_part(g, res):
         phi = g.cell(fld)
         x = fld.ravel()
         rep("diffusionTerm", pf.diffusionTerm(D) @ x, _div(g, D * pf.gradientTerm(phi)))
-        for pi, sg in enumerate(_dir_patterns(g)[:4] if g.d > 1 else [[np.ones(g.face_shapes[0])], [-np.ones(g.face_shapes[0])],
+        for pi, sg in enumerate(_dir_patterns(g) if g.d > 1 else [[np.ones(g.face_shapes[0])], [-np.ones(g.face_shapes[0])],
                                                                       [np.where(np.arange(g.face_shapes[0][0]) % 2 == 0, 1.0, -1.0)],
                                                                       [np.where(np.arange(g.face_shapes[0][0]) % 3 == 0, -1.0, 1.0)]]):
             u = U.face_from_arrays(g.mesh, [a * s_ for a, s_ in zip(absu, sg)])
